@@ -331,6 +331,7 @@ def run(ctx):
                                           {"name": name, "mode": "raw" if raw_mode else "derived", "apid": apid, "row": r_})
     same_names_section(ctx, tmp)
     forwarding_section(ctx, tmp)
+    forwarding_segments(ctx, tmp)
     ctx.traces += 2
     ctx.evaluations += ncell
     ctx.extra["cells_compared"] = ncell
@@ -427,6 +428,42 @@ def forwarding_section(ctx, tmp):
             if got != want:
                 ctx.violation("C18/options-not-forwarded", f"create_dataset(..., {kw}) has rows (packet ids) {got}; the packet generator with the same "
                               f"options yields {want}", {"kw": kw, "prefix": prefix})
+
+
+def forwarding_segments(ctx, tmp):
+    """... also the segment options: a file of FIRST / CONTINUATION / LAST groups with a 2-byte secondary header in every segment"""
+    from space_packet_parser import xarr
+    d = xdoc.new_defn("ROOT")
+    for nm, w in HDR:
+        xdoc.add_param(d, nm, uint(w))
+    xdoc.add_param(d, "SH", uint(16))
+    for i in range(6):
+        xdoc.add_param(d, f"D{i}", uint(8))
+    xdoc.add_container(d, "ROOT", [("p", nm) for nm, _ in HDR] + [("p", "SH")] + [("p", f"D{i}") for i in range(6)])
+    dobj = xdoc.build(d)
+    pks = []
+    for g in range(4):
+        base = 10 * g
+        pks.append(defs.mk_packet(bytes([0xEE, 0xEE, base + 1, base + 2]), apid=30, flags=1, seq=3 * g))
+        pks.append(defs.mk_packet(bytes([0xEE, 0xEE, base + 3, base + 4]), apid=30, flags=0, seq=3 * g + 1))
+        pks.append(defs.mk_packet(bytes([0xEE, 0xEE, base + 5, base + 6]), apid=30, flags=2, seq=3 * g + 2))
+    paths = write_files(tmp, [pks], "fwdseg")
+    for kw in ({"combine_segmented_packets": True, "secondary_header_bytes": 2}, {"combine_segmented_packets": True, "secondary_header_bytes": 0},
+               {"combine_segmented_packets": False}):
+        with warnings.catch_warnings():
+            warnings.simplefilter("ignore")
+            with open(paths[0], "rb") as f:
+                want = [[int(pk[f"D{i}"]) for i in range(6) if f"D{i}" in pk] for pk in dobj.packet_generator(f, root_container_name="ROOT", **kw)]
+            try:
+                ds = xarr.create_dataset(paths, dobj, root_container_name="ROOT", **kw)
+                got = [[int(ds[30][f"D{i}"].values[r]) for i in range(6) if f"D{i}" in ds[30]] for r in range(len(ds[30]["VERSION"].values))] if 30 in ds else []
+            except Exception as e:  # noqa: BLE001
+                got = f"{type(e).__name__}: {e}"[:200]
+        ctx.traces += 1
+        ctx.count(("forwarding-segments", json.dumps(kw, sort_keys=True)))
+        if got != want:
+            ctx.violation("C18/options-not-forwarded", f"create_dataset(..., {kw}) has rows {got}; the packet generator with the same options yields {want}",
+                          {"kw": kw, "segments": True})
 
 
 def replay(ctx, obj):
